@@ -12,7 +12,7 @@
 (*   Rebind(u, src, t, proof) a raw-mode login was accepted from src; proof = it *)
 (*                           carried the right response for u's current         *)
 (*                           challenge (only such a login may rebind a session) *)
-(*   Down(u, dst, to, t)     a downstream datagram for session u carried the     *)
+(*   Down(u, dst, to, t, fresh) a downstream datagram for session u carried the  *)
 (*                           payload of a packet whose IP destination is dst,    *)
 (*                           sent to source address `to`                         *)
 (* CheckIp = source checking enabled.  "Active during the last 60 s" is judged    *)
@@ -69,8 +69,12 @@ Rebind(u, src, t, proof) == /\ u \in Users /\ inuse[u] /\ logged[u]
                      /\ bound' = [bound EXCEPT ![u] = src]
                      /\ UNCHANGED <<inuse, logged, addr, lastAcc, lastAny>>
 
-Down(u, dst, to, t) ==
+\* fresh = the packet reached the server for the session that now receives it - not for an earlier tenant of the slot,
+\* who had the same tunnel address ("only to the live, logged-in session that was assigned A": what was waiting for a
+\* session that is gone is dropped with it)
+Down(u, dst, to, t, fresh) ==
     /\ u \in Users /\ inuse[u] /\ logged[u]
+    /\ fresh
     /\ dst = addr[u]                                     \* only the session that was assigned this address
     /\ CheckIp => to = bound[u]                          \* at the address bound to it
     /\ t - lastAny[u] <= EXP + 1                         \* and only while it is live
